@@ -401,6 +401,7 @@ impl NHistory {
                 if is_request && genuine_of.is_none() {
                     self.violate("C05", format!("a connection request with a modified public field or sealed part (not a token any key holder sealed) was answered with {}", obs.to_text()));
                     self.violate("C17", format!("a connection request with a modified public field or sealed part was answered with {}", obs.to_text()));
+                    self.violate("C19", format!("a connection request that cannot validate (modified public field or sealed part) was answered with a datagram of {} bytes", r.get(2).and_then(|t| t.as_b()).map(|x| x.len()).unwrap_or(0)));
                 }
             }
         }
